@@ -4,10 +4,12 @@
 Require Extraction.
 Require Import ExtrOcamlBasic ExtrOcamlZBigInt ExtrOcamlNatBigInt.
 From LZ4V Require Import Spec.BlockSpec Spec.BlockFast.
-From LZ4V Require Import Gen.Consts Model.Mem Model.Fast Model.FastApi Model.FastStream.
+From LZ4V Require Import Gen.Consts Model.Mem Model.Fast Model.FastApi Model.FastStream Model.HcEmit Model.HcMid Model.HcMidStream.
 Extraction Language OCaml.
 Extraction "lz4v.ml"
   spec_decode_fast strict_valid_fast
   mem_of_list store_list load_list get empty
   s_init resetStream_fast loadDict attach_dictionary renormDictT fast_continue forceExtDict saveDict
-  s_fastReset s_extState s_destSize shift_ctx view step run.
+  s_fastReset s_extState s_destSize shift_ctx view step run
+  hs_init hs_resetStream hs_resetFast hs_setLevel hs_loadDict hs_attach hs_continue hs_continue_destSize hs_saveDict
+  hs_fastReset hs_extState hstep k_endIdx.
